@@ -88,8 +88,30 @@ pub fn check(bytes: &[u8], _ctx: &Ctx) -> Verdict {
             }
         }
         if exceed >= 11 {
+            // known finding: one cached draw per chance infoset and pass is also followed by a
+            // second node of that infoset further down the same path, so the sampled game differs
+            // from the evaluated one. Attributed to it only if the structure is present AND the
+            // same game with the repeated labels made anonymous passes under the same 21 seeds.
+            let mut sig = format!("C04/regret-above-envelope/{}/{}", method_name(case.method), PRESETS[case.preset]);
+            if case.built.tree.chance_label_repeats_on_path() {
+                let plain = case.built.tree.without_path_repeats();
+                if let Ok(game2) = glue::build(&plain) {
+                    let info2 = crate::tree::Info::of(&plain);
+                    let mut exceed2 = 0;
+                    for k in 0..=20u64 {
+                        let sd = if k == 0 { case.seed } else { mix2(case.seed, k) };
+                        match true_regret(&plain, &info2, &game2, case.method, case.preset, case.iters, case.threads, sd) {
+                            Ok(x) if x > env + tol => exceed2 += 1,
+                            _ => (),
+                        }
+                    }
+                    if exceed2 < 11 {
+                        sig = "C04/regret-above-envelope/chance-infoset-repeats-on-a-path".to_string();
+                    }
+                }
+            }
             return Verdict::fail(
-                format!("C04/regret-above-envelope/{}/{}", method_name(case.method), PRESETS[case.preset]),
+                sig,
                 format!(
                     "{} {} T={} threads={} D={} N={} A={}: true regret exceeds D N sqrt(A)/sqrt(T) = {} in {} of 21 seeded runs (worst {})",
                     method_name(case.method), PRESETS[case.preset], case.iters, case.threads, d, n, a, env, exceed, worst
@@ -105,6 +127,9 @@ pub fn check(bytes: &[u8], _ctx: &Ctx) -> Verdict {
     }
     if case.threads > 1 {
         labels.push("multi-thread");
+    }
+    if case.built.tree.chance_label_repeats_on_path() {
+        labels.push("chance-infoset-repeats-on-a-path");
     }
     Verdict::Pass {
         nontrivial: if nontrivial {
@@ -136,6 +161,7 @@ fn aggregate(ctx: &Ctx, stats: &mut Stats) -> Vec<Failure> {
     // the collection: first `want` generated games with D > 0, N >= 1 and uniform regret > 5 % of D
     let mut games = Vec::new();
     let mut k = 0u64;
+    let mut excluded_known = 0u64;
     while games.len() < want && k < 200_000 {
         k += 1;
         let mut state = mix2(ctx.seed, 90_000 + k);
@@ -151,6 +177,11 @@ fn aggregate(ctx: &Ctx, stats: &mut Stats) -> Vec<Failure> {
         let built = gen_built(&mut gs, &cfg);
         let d = oracle::payoff_range(&built.tree);
         if !(d > 0.0) || built.info.num_multi() == 0 {
+            continue;
+        }
+        if built.tree.chance_label_repeats_on_path() {
+            // games hit by the known finding are kept out of the collection (counted)
+            excluded_known += 1;
             continue;
         }
         let uni = match oracle::evaluate(&built.tree, &built.info, &uniform_profile(&built.info), 50_000) {
@@ -222,7 +253,7 @@ fn aggregate(ctx: &Ctx, stats: &mut Stats) -> Vec<Failure> {
         }
     }
     stats.evaluations += (2 * total) as u64;
-    stats.extra.insert("aggregate".into(), json!({"games": games.len(), "candidates_screened": k, "table": table}));
+    stats.extra.insert("aggregate".into(), json!({"games": games.len(), "candidates_screened": k, "excluded_chance_infoset_repeats_on_a_path": excluded_known, "table": table}));
     if let Some((built, d)) = games.first() {
         stats.extra_samples.push(json!({"first_game_of_the_aggregate_collection": built.tree.brief(), "payoff_range": d}));
     }
@@ -236,8 +267,8 @@ pub fn prop() -> Prop {
         describe,
         rule: "per case: generated games (half tiny) x {Sampled, External} x five presets x T in {100,300,1000,3000} x {1, 2..8 threads}, production samplers on per-site seeded generators (reproducible); oracle: true regret (independent) <= D N sqrt(A)/sqrt(T); one exceedance is re-run with 20 more sampling seeds and is a violation only if a majority of the 21 runs exceed. Aggregate: over a fixed collection of generated non-trivial games (uniform regret > 5 % of D) per method x preset x {1, 4 threads}: median regret/D at T=3000 < 0.01 and <= half the median at T=100 (unless already < 1e-5). Non-trivial (per case) = the uniform profile violates the envelope at this T; distinct by (tree, method, preset, T, threads, seed).",
         max_len: 500,
-        cases_quick: 3_000,
-        cases_thorough: 60_000,
+        cases_quick: 30_000,
+        cases_thorough: 300_000,
         assumptions: &[
             "probabilistic claim decided by a majority-of-21 rule: false-alarm probability < 1e-8 per case even for a per-run exceedance probability of 0.1; a code whose exceedance probability lies between ~0.1 and 0.5 on some game is not flagged",
             "'far below' is read as 'at most half'",
